@@ -18,6 +18,16 @@ patterns = st.sampled_from(model.PATTERNS)
 seeds = st.integers(0, 2 ** 32 - 1)
 
 
+# -s N: the decoders put no bound on N, so neither does the generator: small counts, counts at and around the
+# sizes at which chunked or buffered skipping changes behaviour (2^k and multiples of 256, each -1/0/+1), and a mid range
+skip_counts = st.one_of(
+    st.integers(0, 40),
+    st.integers(0, 40),
+    st.tuples(st.sampled_from([128, 256, 512, 768, 1024, 2048, 4096, 8192, 65536]), st.integers(-1, 1)).map(sum),
+    st.integers(41, 3000),
+)
+
+
 def _base(fmt):
     return st.fixed_dictionaries({"fmt": st.just(fmt), "seed": seeds, "palette": palettes, "pattern": patterns})
 
@@ -33,7 +43,7 @@ def hrs_spec(draw, options=True, even_width=True, small=True):
         s["h"] = 1 << (k - a)
         s["pattern"] = draw(st.sampled_from(["random", "ramp", "runs"]))
         if draw(st.integers(0, 3)) == 0:
-            s["skip"] = draw(st.integers(0, 40))
+            s["skip"] = draw(skip_counts)
         return s
     if options:
         if draw(st.booleans()):
@@ -44,7 +54,7 @@ def hrs_spec(draw, options=True, even_width=True, small=True):
         if draw(st.booleans()) or small:
             s["h"] = draw(st.integers(1, 12 if small else 250))
         if draw(st.booleans()):
-            s["skip"] = draw(st.integers(0, 40))
+            s["skip"] = draw(skip_counts)
     elif small:
         s["w"] = 2 * draw(st.integers(1, 40))
         s["h"] = draw(st.integers(1, 12))
@@ -79,7 +89,7 @@ def max_spec(draw, options=True, width_mult8=True):
         s["cols"] = 8 * draw(st.integers(1, 40))
         s["rows"] = draw(st.integers(1, 40))
         if options and draw(st.booleans()):
-            s["skip"] = draw(st.integers(0, 40))
+            s["skip"] = draw(skip_counts)
         return s
     if kind == "default":
         s["rows"] = draw(st.integers(1, 48))
@@ -96,7 +106,7 @@ def max_spec(draw, options=True, width_mult8=True):
         if (s["cols"] * s["rows"]) % 8:
             s["rows"] *= 8
     if kind == "skip" or draw(st.integers(0, 3)) == 0:
-        s["skip"] = draw(st.integers(0, 40))
+        s["skip"] = draw(skip_counts)
     return s
 
 
